@@ -22,8 +22,8 @@ use crate::{dbutil, watch};
 
 pub fn plan(tier: &str) -> u64 {
     match tier {
-        "quick" => 1 + 12 + 40 + n_parked(tier),
-        _ => 2 + 100 + 500 + n_parked(tier),
+        "quick" => 1 + 12 + 40 + n_parked(tier) + n_open_race(tier),
+        _ => 2 + 100 + 500 + n_parked(tier) + n_open_race(tier),
     }
 }
 
@@ -32,6 +32,9 @@ fn n_shapes(tier: &str) -> u64 {
 }
 fn n_parked(tier: &str) -> u64 {
     if tier == "quick" { 24 } else { 240 }
+}
+fn n_open_race(tier: &str) -> u64 {
+    if tier == "quick" { 12 } else { 96 }
 }
 
 fn n_gap(tier: &str) -> u64 {
@@ -423,6 +426,97 @@ fn case_gap(out: &mut CaseOut, seed: u64, idx: u64) {
 }
 
 
+/// The garbage collection that ends `DB::open` is held right after it has listed what to delete,
+/// in a database that needs a compaction at once (four level-0 tables after recovery) and whose
+/// directory holds orphan tables with exactly the file numbers the new instance hands out next.
+/// Whatever the background thread does in that window, no file of the installed version may be
+/// missing afterwards and the next open must succeed.
+fn case_open_gc_race(out: &mut CaseOut, seed: u64, idx: u64) {
+    let mut rng = Rng::new(mix(&[seed, idx], "c11-open-race"));
+    let d = director();
+    d.reset(rng.next_u64());
+    let cfg = Config { memtable: 64 * 1024, file: 4096, block: 256, reuse: false };
+    let fs = SimFs::from_image(&dbutil::root_image());
+    let mut sess = Session::new(fs.clone(), cfg);
+    if let Err(e) = sess.open() {
+        out.violate("C11/open-failed", json!({"error": e}));
+        return;
+    }
+    let pool = gen::key_pool(&mut rng, gen::KeyFamily::Ascii, 40);
+    let mut counter = 0u64;
+    // three sessions: each leaves its write-ahead log to be turned into a level-0 table by the
+    // next open; the fourth batch of writes stays in the log, so the final open ends with four
+    // overlapping level-0 tables
+    for _ in 0..4 {
+        for k in &pool {
+            counter += 1;
+            if sess.put(k, &gen::tagged_value(&mut rng, &format!("v{counter}:"), 40)).is_err() {
+                out.inconclusive("degenerate: load refused");
+                return;
+            }
+        }
+        sess.close();
+        if counter < 160 {
+            if let Err(e) = sess.open() {
+                out.violate("C11/open-failed/clean-reopen", json!({"error": e}));
+                return;
+            }
+        }
+    }
+    let mut image = sess.fs.image();
+    let root = PathBuf::from(dbutil::DB_PATH);
+    let max_number = image.files.keys().filter_map(|p| file_number(p)).max().unwrap_or(10);
+    let mut planted = vec![];
+    for n in 1..=10u64 {
+        let p = root.join("data").join(format!("{}.rdb", max_number + n));
+        image.files.insert(p.clone(), Arc::new(rng.bytes(rng.clone().range(0, 200) as usize)));
+        planted.push(p.display().to_string());
+    }
+    let model = sess.model.clone();
+    let fs2 = SimFs::from_image(&image);
+    fs2.set_strict_unlink(true);
+    let mut sess2 = Session::new(fs2.clone(), Config { reuse: rng.chance(0.5), ..cfg });
+    sess2.model = model;
+    let ctx = json!({"family": "open-gc-race", "planted_orphans": planted, "config": sess2.cfg.describe()});
+    // the opening thread is this thread (role 0): a helper lets it go after the window
+    let gate = d.arm(0, "gc.before_delete", 1);
+    let window_ms = rng.range(60, 250);
+    let helper = std::thread::Builder::new().name("c11-gate-helper".into()).spawn(move || {
+        let d = director();
+        let arrived = d.wait_arrived(gate, Duration::from_secs(10));
+        if arrived {
+            std::thread::sleep(Duration::from_millis(window_ms));
+        }
+        d.release(gate);
+        arrived
+    }).unwrap();
+    let opened = sess2.open();
+    let held = helper.join().unwrap_or(false);
+    if let Err(e) = opened {
+        out.violate("C11/open-failed-with-crash-leftovers", json!({"ctx": ctx, "error": e}));
+        return;
+    }
+    out.add("open_gc_windows", held as u64);
+    sess2.wait_quiescent(Duration::from_secs(20));
+    let universe: BTreeSet<Vec<u8>> = pool.iter().cloned().collect();
+    verify_view(out, &sess2, None, &sess2.model.clone(), &universe, "after-open-with-orphans-and-a-due-compaction", &ctx, "C11");
+    dir_check(out, &mut sess2, "after-open-with-orphans-and-a-due-compaction", &ctx, "C11");
+    judge_anomalies(out, &fs2, &ctx, "C11");
+    // and the directory must be openable again
+    sess2.close();
+    match sess2.open() {
+        Ok(()) => {
+            verify_view(out, &sess2, None, &sess2.model.clone(), &universe, "after-the-next-open", &ctx, "C11");
+            sess2.close();
+        }
+        Err(e) => out.violate("C11/live-file-missing/next-open-failed", json!({"ctx": ctx, "error": e, "files": sess2.fs.image().listing()})),
+    }
+    if held {
+        out.nontrivial(format!("open-gc-race/window{}", window_ms / 100));
+    }
+    out.sample = Some(json!({"family": "open-gc-race", "ctx": ctx, "gc_of_open_was_held": held, "window_ms": window_ms}));
+}
+
 /// A reader is parked in its unlocked section (it has pinned the current version) while every key
 /// is rewritten and compacted away, so that the version it pinned is superseded and only the
 /// reader keeps it alive. The reader then finishes - with a hit, a miss (`KeyNotFound`), at a
@@ -599,6 +693,8 @@ pub fn run_case(tier: &str, seed: u64, idx: u64) -> CaseOut {
         case_gap(&mut out, seed, idx);
     } else if idx < ng + no {
         case_orphans(&mut out, seed, idx - ng);
+    } else if idx >= ng + no + n_shapes(tier) + n_parked(tier) {
+        case_open_gc_race(&mut out, seed, idx - ng - no - n_shapes(tier) - n_parked(tier));
     } else if idx >= ng + no + n_shapes(tier) {
         case_parked_reader(&mut out, seed, idx - ng - no - n_shapes(tier));
     } else if (idx - ng - no) % 5 == 4 {
